@@ -271,6 +271,22 @@ public:
 		return nullptr;
 	}
 
+	// indices of arguments bound to non-const lvalue-reference (or non-const pointer) parameters
+	void refArgs(json::Object& o, const FunctionDecl* FD, unsigned numArgs, unsigned offset) {
+		if (!FD)
+			return;
+		json::Array ra;
+		for (unsigned i = 0; i + offset < numArgs && i < FD->getNumParams(); i++) {
+			QualType PT = FD->getParamDecl(i)->getType();
+			if (PT->isLValueReferenceType() && !PT->getPointeeType().isConstQualified())
+				ra.push_back((int64_t) (i + offset));
+			else if (PT->isPointerType() && !PT->getPointeeType().isConstQualified())
+				ra.push_back((int64_t) (i + offset));
+		}
+		if (!ra.empty())
+			o["refargs"] = std::move(ra);
+	}
+
 	json::Value expr(const Expr* E0) {
 		const Expr* E = strip(E0);
 		json::Object o;
@@ -392,6 +408,7 @@ public:
 				o["args"] = std::move(args);
 				if (isMember)
 					o["memberop"] = true;
+				refArgs(o, FD, OC->getNumArgs(), isMember ? 1 : 0);
 			}
 		}
 		else if (const auto* MC = dyn_cast<CXXMemberCallExpr>(E)) {
@@ -416,6 +433,7 @@ public:
 			for (const Expr* a : MC->arguments())
 				args.push_back(exprOrNull(a));
 			o["args"] = std::move(args);
+			refArgs(o, MD, MC->getNumArgs(), 0);
 			tryFold(o, E);
 		}
 		else if (const auto* CE = dyn_cast<CallExpr>(E)) {
@@ -429,6 +447,7 @@ public:
 			for (const Expr* a : CE->arguments())
 				args.push_back(exprOrNull(a));
 			o["args"] = std::move(args);
+			refArgs(o, CE->getDirectCallee(), CE->getNumArgs(), 0);
 			tryFold(o, E);
 		}
 		else if (const auto* UO = dyn_cast<UnaryOperator>(E)) {
@@ -502,6 +521,7 @@ public:
 			for (const Expr* a : CC->arguments())
 				args.push_back(exprOrNull(a));
 			o["args"] = std::move(args);
+			refArgs(o, CC->getConstructor(), CC->getNumArgs(), 0);
 		}
 		else if (const auto* NE = dyn_cast<CXXNewExpr>(E)) {
 			o["k"] = "New";
